@@ -66,6 +66,10 @@ def _init():
     K("Const.float-exp", "Constant", "Constant", [], lambda c: co(1e-07))
     K("Const.inf", "Constant.inf", "Constant", [], lambda c: co(float("inf")))
     K("Const.complex", "Constant", "Constant", [], lambda c: co(2j))
+    K("Const.negint", "Constant.signed", "Constant", [], lambda c: ast.UnaryOp(ast.USub(), co(7)))
+    K("Const.negfloat", "Constant.signed", "Constant", [], lambda c: ast.UnaryOp(ast.USub(), co(2.5)))
+    K("Const.posint", "Constant.signed", "Constant", [], lambda c: ast.UnaryOp(ast.UAdd(), co(3)))
+    K("Const.invint", "Constant.signed", "Constant", [], lambda c: ast.UnaryOp(ast.Invert(), co(3)))
     K("Const.str", "Constant", "Constant", [], lambda c: co("ab"))
     K("Const.str-esc-sq", "Constant", "Constant", [], lambda c: co("a'\n\\\té\U0001d11e#}|"))
     K("Const.str-esc-dq", "Constant", "Constant", [], lambda c: co('a"\n${'))
